@@ -361,11 +361,9 @@ impl Model for Conv {
 
 fn seeds(thorough: bool) -> Vec<Seed> {
     let mut v = vec![];
-    let rot = rot_family(if thorough { 1 } else { 0 });
-    let n = if thorough { rot.len() } else { 256 };
-    let step = (rot.len() / n).max(1);
+    let rot = if thorough { rot_family(1) } else { rot_subset(0, 128) };
     // pure rotations, entering as f64 quaternions (highest precision view)
-    for (i, q) in rot.iter().step_by(step).enumerate() {
+    for (i, q) in rot.iter().enumerate() {
         let dq = DQuat::from_xyzw(q[0], q[1], q[2], q[3]);
         let init = match i % 3 {
             0 => R::DQ(dq),
@@ -429,7 +427,9 @@ fn seeds(thorough: bool) -> Vec<Seed> {
 fn commutation(rep: &mut Report) {
     let th = rep.thorough();
     let rot = rot_family(0);
-    let qs: Vec<Quat> = rot.iter().step_by((rot.len() / if th { 96 } else { 32 }).max(1)).map(|q| DQuat::from_xyzw(q[0], q[1], q[2], q[3]).as_quat()).collect();
+    let mut qs: Vec<Quat> = rot.iter().step_by((rot.len() / if th { 96 } else { 32 }).max(1)).map(|q| DQuat::from_xyzw(q[0], q[1], q[2], q[3]).as_quat()).collect();
+    // plus a handful of the members that sit where implementations branch
+    qs.extend(rot_subset(0, 1).iter().skip(1).step_by(if th { 4 } else { 16 }).map(|q| DQuat::from_xyzw(q[0], q[1], q[2], q[3]).as_quat()));
     let n = qs.len() as u64;
     let qr = &qs;
     let probe = |acc: &mut Acc, site: &str, l: &R, r: &R, k: f64, ctx: &dyn Fn() -> String| {
@@ -453,6 +453,17 @@ fn commutation(rep: &mut Report) {
         probe(acc, "Mat4::from_quat(q*p) = from_quat(q)*from_quat(p)", &R::M4(Mat4::from_quat(q * p)), &R::M4(Mat4::from_quat(q) * Mat4::from_quat(p)), 32.0, &ctx);
         probe(acc, "Mat3::from_quat(q^-1) = from_quat(q)^-1", &R::M3(Mat3::from_quat(q.inverse())), &R::M3(Mat3::from_quat(q).inverse()), 32.0, &ctx);
         probe(acc, "Quat::from_mat3(A*B) ~ from_mat3(A)*from_mat3(B)", &R::Q(Quat::from_mat3(&(Mat3::from_quat(q) * Mat3::from_quat(p)))), &R::Q(Quat::from_mat3(&Mat3::from_quat(q)) * Quat::from_mat3(&Mat3::from_quat(p))), 64.0, &ctx);
+        // the same transform built directly in each representation (and in each width) acts the same
+        let sc = Vec3::new(2.0, 0.5, 1.5);
+        let (dq, dt, dsc) = (q.as_dquat(), t1.as_dvec3(), sc.as_dvec3());
+        probe(acc, "Affine3A::from_rotation_translation ~ Mat4::from_rotation_translation", &R::A3(Affine3A::from_rotation_translation(q, t1)), &R::M4(Mat4::from_rotation_translation(q, t1)), 32.0, &ctx);
+        probe(acc, "DAffine3::from_rotation_translation ~ DMat4::from_rotation_translation", &R::DA3(DAffine3::from_rotation_translation(dq, dt)), &R::DM4(DMat4::from_rotation_translation(dq, dt)), 32.0, &ctx);
+        probe(acc, "DAffine3::from_rotation_translation ~ Affine3A::from_rotation_translation", &R::DA3(DAffine3::from_rotation_translation(dq, dt)), &R::A3(Affine3A::from_rotation_translation(q, t1)), 32.0, &ctx);
+        probe(acc, "DAffine3::from_rotation_translation ~ from_translation * from_quat", &R::DA3(DAffine3::from_rotation_translation(dq, dt)), &R::DA3(DAffine3::from_translation(dt) * DAffine3::from_quat(dq)), 32.0, &ctx);
+        probe(acc, "DAffine3::from_scale_rotation_translation ~ DMat4::from_scale_rotation_translation", &R::DA3(DAffine3::from_scale_rotation_translation(dsc, dq, dt)), &R::DM4(DMat4::from_scale_rotation_translation(dsc, dq, dt)), 32.0, &ctx);
+        probe(acc, "Affine3A::from_scale_rotation_translation ~ Mat4::from_scale_rotation_translation", &R::A3(Affine3A::from_scale_rotation_translation(sc, q, t1)), &R::M4(Mat4::from_scale_rotation_translation(sc, q, t1)), 32.0, &ctx);
+        probe(acc, "DAffine3::from_mat3_translation ~ DMat4::from_mat3_translation", &R::DA3(DAffine3::from_mat3_translation(DMat3::from_quat(dq), dt)), &R::DM4(DMat4::from_mat3_translation(DMat3::from_quat(dq), dt)), 32.0, &ctx);
+        probe(acc, "Affine3A::from_mat3_translation ~ Mat4::from_mat3_translation", &R::A3(Affine3A::from_mat3_translation(Mat3::from_quat(q), t1)), &R::M4(Mat4::from_mat3_translation(Mat3::from_quat(q), t1)), 32.0, &ctx);
         // affine <-> Mat4
         probe(acc, "Mat4::from(a*b) = Mat4::from(a)*Mat4::from(b)", &R::M4(Mat4::from(a * b)), &R::M4(Mat4::from(a) * Mat4::from(b)), 64.0, &ctx);
         probe(acc, "Mat4::from(a^-1) = Mat4::from(a)^-1", &R::M4(Mat4::from(b.inverse())), &R::M4(Mat4::from(b).inverse()), 128.0, &ctx);
